@@ -466,7 +466,8 @@ class Operator:
         if writeDB:
             # database has not yet been written, so we need to write it.
             dbi = self.getInterface("database")
-            dbi.writeDBEveryNode()
+            if dbi is not None and dbi.enabled():
+                dbi.writeDBEveryNode()
 
     def _interactAll(self, interactionName, activeInterfaces, *args):
         """
